@@ -222,7 +222,7 @@ impl Check for C17 {
     }
     fn extra_coverage(&self, agg: &Aggregate) -> Value {
         json!({
-            "max_unminimized_states": agg.counters.get("max_unminimized_states_seen").copied().unwrap_or(0),
+            "unminimized_states_summed_over_instances_beyond_65535": agg.counters.get("unminimized_states_summed_over_instances_beyond_65535").copied().unwrap_or(0),
         })
     }
     fn check(&self, case: &Case) -> CheckResult {
@@ -268,7 +268,7 @@ impl Check for C17 {
         st.nontrivial = before > 1_000;
         // (max over cases is taken by summing flags; the largest size is reported through samples)
         if before > 65_535 {
-            st.add("max_unminimized_states_seen", before as u64);
+            st.add("unminimized_states_summed_over_instances_beyond_65535", before as u64);
         }
         for (input, expected) in &probes {
             let r = guard(|| scanner.find_iter(input).map(|m| Tok::of(&m)).collect::<Vec<_>>());
